@@ -104,12 +104,18 @@ CLAIMED = {
               "D02 (OperatorFuncNode) and D05 (LossNode) were repaired in /repo."),
         ref="DESIGN.md section 4 C01"),
     "C19": dict(
-        technique="Coq proof of totality/fuel-freedom and tree invariants on arbitrary JSON + schema/byte mutation runs under alarm and state snapshots",
-        text=("coq/props/C19.v: on EVERY JSON value the model of get_tree returns a tree or one of the ordinary exceptions and never the fuel artefact when nesting depth < fuel (induction over all loaders); "
-              "every tree built satisfies the invariants the audit relies on; and 'terminate promptly' is refuted for the audit (29-node ladder -> 32767 visits, finding D11). The model's predicted outcome "
-              "(exception enum, rows, printed text) is compared with /repo on archives with 1-3 stacked schema-level mutations. Clean failure itself is observed: the same archives and byte-level mutations of real "
-              "dumps run in workers under SIGALRM with snapshots of cwd, environ, sys.path, numpy global RNG and scratch-dir listing; BaseException, hang, worker death or state change is a violation."),
-        note=("Partial by nature: byte-level corruption is handled by zipfile/json/numpy/scipy (not modelled; exercised only). Trusted: Coq kernel, worker instrumentation. Open finding D11 (exponential audit)."),
+        technique='Coq proofs of totality and of termination for structural reasons (tree building, cycle-guarded graph audit, visualize walk, construct walk) + model/implementation correspondence under schema mutations + observed clean failure in workers',
+        text=('coq/props/C19.v (27 theorems): on EVERY JSON value the model of get_tree returns a tree or one of the ordinary exceptions and never the fuel artefact when nesting depth < fuel (induction over all 29 loaders); every tree built satisfies the '
+              'invariants the audit relies on; TERMINATION of what runs on the built graph, with explicit measures: the cycle-guarded audit (unsafe_g), the visualize walk (which unrolls every cycle twice) and the construct walk never return the fuel '
+              'artefact when (ids of the root not on the path) x (height + 1) + height + 2 <= fuel (C19_audit_graph_terminates, C19_walk_graph_terminates, C19_construct_graph_terminates: strong induction on fuel, a Ref jump removes one free id; no '
+              'well-formedness needed beyond sub n root); entry-point corollaries for get_untrusted_types / load_audit / visualize / construct_trace with the size condition stated on the built tree and on the schema alone '
+              '(C19_built_tree_bounded_by_schema: height <= jdepth, ids <= the truthy hashable __id__ values); the unconditional versions at the fixed fuels are refuted with a 17-id / height-193 tower (C19_entry_points_nofuel_refuted: a statement about '
+              "the model's fuel constants -- the implementation answers RecursionError there, an ordinary exception); 'terminate promptly' is refuted for the audit for every n (2^(n+1)-1 visits of a 2n+1-node ladder, finding D11). "
+              "The model's predicted outcome (exception enum, rows, printed text) is compared with /repo on archives with 1-3 stacked schema-level mutations. Clean failure itself is observed: the same archives, extreme protocol values, "
+              '.npy headers that lie about dtype/shape and byte-level mutations of real dumps run in workers under SIGALRM with snapshots of cwd, environ, sys.path, numpy global RNG and scratch-dir listing; what load returned is USED inside the worker; '
+              'BaseException, hang, worker death (isolated to the single case) or state change is a violation.'),
+        note=("Partial by nature: byte-level corruption is handled by zipfile/json/numpy/scipy (not modelled; exercised only); the model has no interpreter recursion limit on graph paths through Ref jumps (tower(60,8): the model visualizes 2205 rows, "
+              "the implementation raises RecursionError -- both are ordinary outcomes). Trusted: Coq kernel, worker instrumentation. Open finding D11 (exponential audit)."),
         ref="DESIGN.md section 4 C19"),
     "C20": dict(
         technique="Coq proof of schedule independence for local-write steps + regenerated frame table + fresh/history/threads differential runs",
